@@ -65,7 +65,7 @@ def shim_path():
     return so
 
 
-ERRNO_OF = {"Other": 5, "StorageFull": 28, "PermissionDenied": 13, "Uncategorized": 24, "NotFound": 2, "AlreadyExists": 17}
+ERRNO_OF = {"CrossesDevices": 18, "Other": 5, "StorageFull": 28, "PermissionDenied": 13, "Uncategorized": 24, "NotFound": 2, "AlreadyExists": 17}
 
 
 def _parse_obs(stdout):
@@ -147,6 +147,10 @@ def run_native(scenario, flavour=None, timeout=120, keep=False):
         env["CACACHE_SHIM_ROOT"] = root
         if shim["mode"] == "crash":
             env["CACACHE_SHIM_SPEC"] = "crash %d %d" % (shim["effects"], -1 if shim.get("torn") is None else shim["torn"])
+            fl_ = shim.get("fault")
+            if fl_:
+                # a failing call (e.g. rename -> EXDEV) in the same step as the kill
+                env["CACACHE_SHIM_SPEC2"] = "fault %s %d %d %d %s" % (fl_["class"], fl_.get("occurrence", 0), ERRNO_OF.get(fl_["errno"], 5), -1, fl_.get("suffix") or "*")
             rc, out, err = _exec(exe, {"steps": steps}, root, extra_args=["--upto", str(k)], env=env, timeout=timeout)
             obs, final = _parse_obs(out)
             crashed = rc == 137
